@@ -1,0 +1,102 @@
+//go:build verif
+
+package pullapi
+
+// Contracts for govc (see /verif/DESIGN.md). Comments only; compiled only with -tags verif.
+
+//@ spec
+//@ ghost var lastAllowed [][]byte
+//@ pred bearerWellFormed(h string) := h != "" && prefixof("Bearer ", h) && trim(trimprefix(h, "Bearer ")) != ""
+//@ func bearerToken(h string) string := trim(trimprefix(h, "Bearer "))
+//@ pred tokenListed(allowed [][]byte, tok string) := exists i int :: 0 <= i && i < len(allowed) && allowed[i] == tok
+
+//@ func BearerTokenAuthorizer
+//@   modifies lastAllowed
+//@   sets lastAllowed := local(allowed)
+//@   loop 1 invariant [bounds] rangeindex < len(tokens)
+//@   loop 1 invariant [only_nonempty_inputs] forall k int :: 0 <= k && k < len(allowed) ==> len(allowed[k]) > 0 && (exists j int :: 0 <= j && j <= rangeindex && tokens[j] == allowed[k])
+//@   loop 1 invariant [all_nonempty_inputs] forall j int :: 0 <= j && j <= rangeindex && len(tokens[j]) > 0 ==> tokenListed(allowed, tokens[j])
+//@   ensures [C11:allowlist_is_exactly_the_nonempty_tokens] (forall k int :: 0 <= k && k < len(lastAllowed) ==> len(lastAllowed[k]) > 0 && (exists j int :: 0 <= j && j < len(tokens) && tokens[j] == lastAllowed[k])) && (forall j int :: 0 <= j && j < len(tokens) && len(tokens[j]) > 0 ==> tokenListed(lastAllowed, tokens[j]))
+
+//@ func BearerTokenAuthorizer$1
+//@   requires r != nil && r.Header != nil
+//@   loop 1 invariant [none_before] forall j int :: 0 <= j && j <= rangeindex ==> allowed[j] != gb
+//@   ensures [C11:open_only_without_tokens] len(allowed) == 0 ==> result
+//@   ensures [C11:accept_implies_listed_token] len(allowed) > 0 && result ==> bearerWellFormed(headerGet(r.Header, "Authorization")) && tokenListed(allowed, bearerToken(headerGet(r.Header, "Authorization")))
+//@   ensures [C11:listed_token_accepted] len(allowed) > 0 && bearerWellFormed(headerGet(r.Header, "Authorization")) && tokenListed(allowed, bearerToken(headerGet(r.Header, "Authorization"))) ==> result
+
+// ---- C04 (pull layer): conflict mapping and the idempotency cache ----
+
+//@ spec
+//@ func leaseOpKey(lease string, op string) string := concat(trim(lease), "|", trim(op))
+//@ pred leaseConflict(err error) := errIs(err, queue.ErrLeaseNotFound) || errIs(err, queue.ErrLeaseExpired)
+
+//@ func (*Server).isRecentlyCompletedLease
+//@   trusted
+//@   ensures result ==> leaseOpKey(leaseID, op) in remembered
+
+//@ func (*Server).rememberCompletedLease
+//@   trusted
+//@   modifies remembered
+//@   ensures forall k string :: k in remembered ==> old(k in remembered) || k == leaseOpKey(leaseID, op)
+
+//@ func (*Server).observe*
+//@   trusted
+
+//@ func (*Server).AckSingle
+//@   requires s != nil
+//@   modifies storeMutations, lastStoreErr, lastStoreLease, lastStoreOp, remembered
+//@   calls rememberCompletedLease requires [C04:remember_only_after_store_success] storeMutations == old(storeMutations) + 1 && lastStoreErr == nil && lastStoreLease == arg1 && arg2 == "ack"
+//@   ensures [C04:conflict_is_409] storeMutations == old(storeMutations) + 1 && leaseConflict(lastStoreErr) ==> result != nil && result.StatusCode == 409
+//@   ensures [C04:store_error_never_success] storeMutations == old(storeMutations) + 1 && lastStoreErr != nil ==> result != nil
+//@   ensures [C04:success_means_store_success_or_remembered_duplicate] result == nil ==> (storeMutations == old(storeMutations) + 1 && lastStoreErr == nil && lastStoreLease == trim(leaseID) && lastStoreOp == "ack") || (storeMutations == old(storeMutations) && old(leaseOpKey(leaseID, "ack") in remembered))
+//@   ensures [C04:at_most_one_store_call] storeMutations == old(storeMutations) || storeMutations == old(storeMutations) + 1
+
+//@ func (*Server).NackSingle
+//@   requires s != nil
+//@   modifies storeMutations, lastStoreErr, lastStoreLease, lastStoreOp, remembered
+//@   calls rememberCompletedLease requires [C04:remember_only_after_store_success] storeMutations == old(storeMutations) + 1 && lastStoreErr == nil && lastStoreLease == arg1 && arg2 == "nack"
+//@   ensures [C04:conflict_is_409] storeMutations == old(storeMutations) + 1 && leaseConflict(lastStoreErr) ==> result != nil && result.StatusCode == 409
+//@   ensures [C04:store_error_never_success] storeMutations == old(storeMutations) + 1 && lastStoreErr != nil ==> result != nil
+//@   ensures [C04:success_means_store_success_or_remembered_duplicate] result == nil ==> (storeMutations == old(storeMutations) + 1 && lastStoreErr == nil && lastStoreLease == trim(leaseID) && lastStoreOp == ite(dead, "dead", "nack")) || (storeMutations == old(storeMutations) && old(leaseOpKey(leaseID, "nack") in remembered))
+//@   ensures [C04:at_most_one_store_call] storeMutations == old(storeMutations) || storeMutations == old(storeMutations) + 1
+
+//@ func (*Server).Extend
+//@   requires s != nil
+//@   modifies storeMutations, lastStoreErr, lastStoreLease, lastStoreOp
+//@   ensures [C04:conflict_is_409] storeMutations == old(storeMutations) + 1 && leaseConflict(lastStoreErr) ==> result != nil && result.StatusCode == 409
+//@   ensures [C04:success_means_store_success] result == nil ==> storeMutations == old(storeMutations) + 1 && lastStoreErr == nil && lastStoreLease == trim(leaseID) && lastStoreOp == "extend"
+
+// ---- C11 (pull layer): nothing happens before authorisation ----
+
+//@ spec
+//@ func pullEndpointSpec(r *http.Request) string := ite(r == nil || r.URL == nil, "", ite(trimsuffix(cleanpath(r.URL.Path), "/" + ext("path.Base", cleanpath(r.URL.Path))) == "", "/", trimsuffix(cleanpath(r.URL.Path), "/" + ext("path.Base", cleanpath(r.URL.Path)))))
+
+//@ fieldfunc pullapi.Server.Authorize(r) (ok)
+//@   modifies authzCalls, authzResult, authzReq
+//@   ensures authzCalls == old(authzCalls) + 1 && authzResult == ok && authzReq == r
+
+//@ fieldfunc pullapi.Server.ResolveRoute(endpoint) (route, ok)
+
+//@ func writeError
+//@   trusted
+//@   modifies respStatus
+//@   ensures respStatus == ite(old(respStatus) == 0, status, old(respStatus))
+
+//@ func (*Server).handle*
+//@   trusted
+//@   modifies *
+
+//@ func (*Server).resolveRoute
+//@   requires s != nil
+
+//@ func (*Server).ServeHTTP
+//@   requires s != nil && r != nil && r.URL != nil && respStatus == 0
+//@   modifies *
+//@   calls handleDequeue requires [C11:dequeue_only_when_authorized] s.Authorize == nil || (authzCalls == old(authzCalls) + 1 && authzResult && authzReq == r)
+//@   calls handleAck requires [C11:ack_only_when_authorized] s.Authorize == nil || (authzCalls == old(authzCalls) + 1 && authzResult && authzReq == r)
+//@   calls handleNack requires [C11:nack_only_when_authorized] s.Authorize == nil || (authzCalls == old(authzCalls) + 1 && authzResult && authzReq == r)
+//@   calls handleExtend requires [C11:extend_only_when_authorized] s.Authorize == nil || (authzCalls == old(authzCalls) + 1 && authzResult && authzReq == r)
+//@   calls resolveRoute requires [C11:endpoint_rule_agrees_with_authorizer] arg1 == pullEndpointSpec(r)
+//@   ensures [C11:unauthorized_is_401] old(s.Authorize != nil && r.Method == "POST") && authzCalls == old(authzCalls) + 1 && !authzResult ==> respStatus == 401
+//@   ensures [C11:authorize_consulted_for_every_post] old(s.Authorize != nil && r.Method == "POST") ==> authzCalls == old(authzCalls) + 1
